@@ -1,8 +1,405 @@
+import Corro.Model.Crdt
+import Corro.Model.Backup
+import Corro.Model.Locks
 import Driver.Util
-/-! Driver stub for C19: not built yet. -/
+/-!
+Driver for C19.  Nodes 0..7 hold a cr-sqlite database grown with the `c*` ops of the CRDT family
+(`Corro.Crdt`, tied to the real extension by `hx C01`), from which the site table and the clock rows
+of the file are derived; `backup`, `restore`, `inspect` run `Corro.Backup`; `trace` prints the
+restore's lock program of `Corro.Locks`.
+-/
 namespace Driver.C19
-abbrev State := Unit
-def init : State := ()
-def step (st : State) (_toks : List String) : Option (State × String) := some (st, "bad-op")
+open Corro.Crdt
+
+-- ---------------------------------------------------------------- parser / printer of the c* family (as Driver.C01)
+
+def hexDigit (c : Char) : Option Nat :=
+  if '0' ≤ c ∧ c ≤ '9' then some (c.toNat - '0'.toNat)
+  else if 'a' ≤ c ∧ c ≤ 'f' then some (c.toNat - 'a'.toNat + 10) else none
+
+def parseHex : List Char → Option (List Nat)
+  | [] => some []
+  | [_] => none
+  | a :: b :: rest => do
+    let x ← hexDigit a; let y ← hexDigit b; let r ← parseHex rest
+    pure ((x * 16 + y) :: r)
+
+def hexOf (n : Nat) : String :=
+  let d (k : Nat) : Char := if k < 10 then Char.ofNat (48 + k) else Char.ofNat (87 + k)
+  String.ofList [d (n / 16), d (n % 16)]
+
+def showHex (bs : List Nat) : String := String.join (bs.map hexOf)
+
+def parseVal (s : String) : Option Val :=
+  match s.toList with
+  | ['n'] => some .null
+  | 'i' :: rest => (String.ofList rest).toInt?.map Val.int
+  | 't' :: rest => (parseHex rest).map Val.text
+  | 'b' :: rest => (parseHex rest).map Val.blob
+  | _ => none
+
+def showVal : Val → String
+  | .null => "n"
+  | .int i => s!"i{i}"
+  | .text b => "t" ++ showHex b
+  | .blob b => "b" ++ showHex b
+
+def showChg (c : Chg) : String :=
+  s!"{c.tbl}/{c.pk}/{c.cid}={showVal c.val}@{c.colv}.{c.cl}.{c.site}.{c.dbv}.{c.seq}"
+
+def showChgs (cs : List Chg) : String := Driver.showList (cs.map showChg) ";"
+
+def insertSorted (lt : α → α → Bool) (x : α) : List α → List α
+  | [] => [x]
+  | y :: ys => if lt x y then x :: y :: ys else y :: insertSorted lt x ys
+
+def sortBy (lt : α → α → Bool) (xs : List α) : List α := xs.foldl (fun acc x => insertSorted lt x acc) []
+
+def keyLt (a b : Chg) : Bool :=
+  a.tbl < b.tbl ∨ (a.tbl = b.tbl ∧ (a.pk < b.pk ∨ (a.pk = b.pk ∧ a.cid < b.cid)))
+
+/-- rendered rows of the replicated tables, in `dump_db` order -/
+def rowLines (db : Db) : List String :=
+  let rowsOf (tbl : String) : List String :=
+    match tableCols tbl with
+    | none => []
+    | some cols =>
+      sortBy (fun (a b : String) => a < b) <|
+        (db.rows.filter (fun r => r.tbl = tbl ∧ r.cl % 2 = 1)).map fun r =>
+          let vals := cols.map fun c => match r.findCell c with | some x => showVal x.val | none => "n"
+          s!"{tbl}/{r.pk}:" ++ ",".intercalate vals
+  rowsOf "k" ++ rowsOf "t" ++ rowsOf "u"
+
+def dump (db : Db) : String :=
+  showChgs (sortBy keyLt db.changes) ++ " | " ++ Driver.showList (rowLines db) ";"
+
+def typeOk (c : String) : Val → Bool
+  | .null => true
+  | .int _ => c == "b"
+  | .text _ => c == "a" || c == "x"
+  | .blob _ => c == "a" || c == "x"
+
+def parseAssigns (s : String) : Option (List (String × Val)) :=
+  (Driver.splitList s).mapM fun kv =>
+    match kv.splitOn "=" with
+    | [c, v] => (parseVal v).bind fun x => if typeOk c x then some (c, x) else none
+    | _ => none
+
+def pkOk (tbl pk : String) : Bool :=
+  let n := (pk.splitOn "+").length
+  ((pk.splitOn "+").all (fun t => (parseVal t).isSome)) &&
+  (match tbl with | "u" => n == 2 | "t" => n == 1 | "k" => n == 1 | _ => false)
+
+def parseStmt (s : String) : Option Stmt :=
+  match s.splitOn ":" with
+  | ["ins", tbl, pk] => if pkOk tbl pk then some (.ins tbl pk []) else none
+  | ["ins", tbl, pk, a] => do
+      let cols ← tableCols tbl
+      let asg ← parseAssigns a
+      if pkOk tbl pk ∧ asg.all (fun x => cols.contains x.1) then some (.ins tbl pk asg) else none
+  | ["upd", tbl, pk, a] => do
+      let cols ← tableCols tbl
+      let asg ← parseAssigns a
+      if pkOk tbl pk ∧ ¬ asg.isEmpty ∧ asg.all (fun x => cols.contains x.1) then some (.upd tbl pk asg) else none
+  | ["del", tbl, pk] => if pkOk tbl pk then some (.del tbl pk) else none
+  | _ => none
+
+def parseSeqs (s : String) : Option (Nat × Nat) :=
+  if s = "all" then some (0, 1000000000) else Driver.range? s
+
+def dbIdx (s : String) : Option Nat := s.toNat?.filter (· < 8)
+
+-- ---------------------------------------------------------------- state
+
+/-- a database file: what `Corro.Backup` sees of it, plus what is needed to print `crsql_changes`
+(value and causal length of every entry, which neither command touches) -/
+structure Image where
+  db : Corro.Backup.Db
+  pay : List Chg
+deriving Inhabited
+
+/-- a database that is still being grown by local writes and merges -/
+structure Grown where
+  crdt : Db
+  /-- other sites in the order cr-sqlite gave them ordinals 1, 2, … -/
+  others : List Nat := []
+  members : Nat := 0
+  subs : Option Nat := none
+  consulServices : Option Nat := none
+  consulChecks : Option Nat := none
+  wal : Bool := true
+deriving Inhabited
+
+inductive File where
+  | absent
+  | empty
+  | grown (g : Grown)
+  /-- written by `restore`: no further growth -/
+  | frozen (im : Image)
+deriving Inhabited
+
+structure NodeSt where
+  file : File := .absent
+  subsDir : Nat := 0
+deriving Inhabited
+
+structure State where
+  nodes : List (Nat × NodeSt) := []
+  /-- original change list of (site, version) -/
+  log : List ((Nat × Nat) × List Chg) := []
+  snaps : List (Nat × Image) := []
+
+def init : State := {}
+
+def State.node (st : State) (i : Nat) : NodeSt :=
+  match st.nodes.find? (·.1 = i) with | some p => p.2 | none => {}
+
+def State.setNode (st : State) (i : Nat) (n : NodeSt) : State :=
+  if st.nodes.any (·.1 = i) then { st with nodes := st.nodes.map (fun p => if p.1 = i then (i, n) else p) }
+  else { st with nodes := st.nodes ++ [(i, n)] }
+
+def State.snap (st : State) (i : Nat) : Option Image := (st.snaps.find? (·.1 = i)).map (·.2)
+
+def State.setSnap (st : State) (i : Nat) (im : Image) : State :=
+  if st.snaps.any (·.1 = i) then { st with snaps := st.snaps.map (fun p => if p.1 = i then (i, im) else p) }
+  else { st with snaps := st.snaps ++ [(i, im)] }
+
+/-- the growable database of node `i` (created on first use, as `open_plain_db` does) -/
+def growable (st : State) (i : Nat) : Option Grown :=
+  match (st.node i).file with
+  | .absent => some { crdt := { site := i } }
+  | .grown g => some g
+  | _ => none
+
+def setGrown (st : State) (i : Nat) (g : Grown) : State :=
+  st.setNode i { st.node i with file := .grown g }
+
+/-- cr-sqlite gives a site an ordinal the first time one of its changes is written to a clock table -/
+def mergeTracking (g : Grown) (cs : List Chg) : Grown :=
+  cs.foldl (fun g c =>
+    let d := merge g.crdt c
+    let others :=
+      if d.rows ≠ g.crdt.rows ∧ c.site ≠ g.crdt.site ∧ ¬ g.others.contains c.site then g.others ++ [c.site]
+      else g.others
+    { g with crdt := d, others := others }) g
+
+def Grown.sites (g : Grown) : List (Nat × Nat) :=
+  (0, g.crdt.site) :: g.others.zipIdx.map (fun (s, i) => (i + 1, s))
+
+def Grown.image (g : Grown) : Image :=
+  let sites := g.sites
+  let chs := g.crdt.changes
+  { db := {
+      sites := sites
+      clock := chs.map fun c =>
+        ⟨c.tbl, c.pk, c.cid, c.colv, c.dbv, c.seq, (Corro.Backup.ordOf sites c.site).getD 999⟩
+      data := (rowLines g.crdt).map fun l => ("", "", l)
+      members := g.members, subs := g.subs
+      consulServices := g.consulServices, consulChecks := g.consulChecks, wal := g.wal }
+    pay := chs }
+
+def fileImage : File → Option Image
+  | .grown g => some g.image
+  | .frozen im => some im
+  | _ => none
+
+def toDst : File → Corro.Backup.Dst
+  | .absent => .absent
+  | .empty => .empty
+  | .grown g => .db g.image.db
+  | .frozen im => .db im.db
+
+-- ---------------------------------------------------------------- printing an image
+
+def showSite : Option Nat → String
+  | some s => toString s
+  | none => "?"
+
+def showOpt : Option Nat → String
+  | some n => toString n
+  | none => "-"
+
+def pairLt (a b : Nat × Nat) : Bool := a.1 < b.1
+
+def showImage (im : Image) : String :=
+  let sites := (sortBy pairLt im.db.sites).map fun p => s!"{p.1}:{p.2}"
+  let chs : List Chg := im.db.changes.map fun c =>
+    let p := im.pay.find? (fun x => x.tbl = c.tbl ∧ x.pk = c.key ∧ x.cid = c.col)
+    { tbl := c.tbl, pk := c.key, cid := c.col, val := (p.map (·.val)).getD .null, colv := c.colv,
+      cl := (p.map (·.cl)).getD 0, site := c.site.getD 99, dbv := c.dbv, seq := c.seq }
+  let unresolved := im.db.changes.any (·.site.isNone)
+  let shown := (sortBy keyLt chs).map fun c =>
+    if unresolved ∧ c.site = 99 then
+      s!"{c.tbl}/{c.pk}/{c.cid}={showVal c.val}@{c.colv}.{c.cl}.?.{c.dbv}.{c.seq}"
+    else showChg c
+  s!"sites={Driver.showList sites} local=m{im.db.members},s{showOpt im.db.subs},cs{showOpt im.db.consulServices},cc{showOpt im.db.consulChecks} mode={if im.db.wal then "wal" else "delete"} | " ++
+    Driver.showList shown ";" ++ " | " ++ Driver.showList (im.db.data.map (·.2.2)) ";"
+
+def showNode (n : NodeSt) : String :=
+  match n.file with
+  | .absent => s!"absent dir={n.subsDir}"
+  | .empty => s!"empty dir={n.subsDir}"
+  | f => match fileImage f with
+    | some im => s!"dir={n.subsDir} " ++ showImage im
+    | none => "?"
+
+def parseKeep (s : String) : Option Corro.Backup.Keep :=
+  if s = "no" then some .no
+  else if s = "self" then some .self
+  else match s.splitOn ":" with
+    | ["actor", i] => (dbIdx i).map .actor
+    | _ => none
+
+def parseOptNat (s : String) : Option (Option Nat) :=
+  if s = "-" then some none else s.toNat?.map some
+
+def bulkStmts (n len : Nat) : List Stmt :=
+  (List.range n).map fun j =>
+    .ins "t" s!"i{1000 + j}" [("a", .text (List.replicate len (0x61 + j % 26))), ("b", .int j)]
+
+/-- what `restore` leaves behind: the destination node and the (edited) snapshot -/
+def applyRestore (st : State) (sn dn : Nat) (im : Image) (keep : Corro.Backup.Keep) :
+    State × String :=
+  let n := st.node dn
+  match Corro.Backup.restore { file := toDst n.file, subsDir := n.subsDir } im.db keep with
+  | .error (.noSelf, n') =>
+    let file := match n'.file, n.file with
+      | .empty, .absent => File.empty
+      | _, f => f
+    (st.setNode dn { file := file, subsDir := n'.subsDir }, "err no-self")
+  | .ok r =>
+    let st := st.setSnap sn { im with db := r.snapshot }
+    (st.setNode dn { file := .frozen { im with db := r.snapshot }, subsDir := r.node.subsDir }, "ok")
+
+def step (st : State) (toks : List String) : Option (State × String) :=
+  match toks with
+  | ["cw", db, stmts] => do
+    let i ← dbIdx db
+    let ss ← (stmts.splitOn ";").mapM parseStmt
+    match growable st i with
+    | none => pure (st, "err frozen")
+    | some g =>
+      match localTx g.crdt ss with
+      | .error .constraint => pure (setGrown st i g, "err constraint")
+      | .error .badOp => none
+      | .ok (_, none) => pure (setGrown st i g, "noop")
+      | .ok (d, some (ver, chs)) =>
+        pure ({ setGrown st i { g with crdt := d } with log := ((i, ver), chs) :: st.log },
+              s!"ok v={ver} {showChgs chs}")
+  | ["bulk", db, n, len] => do
+    let i ← dbIdx db; let n ← n.toNat?; let len ← len.toNat?
+    if n = 0 ∨ n > 2000 ∨ len > 4000 then none else
+    match growable st i with
+    | none => pure (st, "err frozen")
+    | some g =>
+      match localTx g.crdt (bulkStmts n len) with
+      | .error _ => pure (setGrown st i g, "err constraint")
+      | .ok (_, none) => pure (setGrown st i g, "noop")
+      | .ok (d, some (ver, chs)) =>
+        pure ({ setGrown st i { g with crdt := d } with log := ((i, ver), chs) :: st.log }, s!"ok v={ver}")
+  | ["cm", dst, frm, site, ver, seqs] => do
+    let d ← dbIdx dst; let f ← dbIdx frm; let s ← dbIdx site; let v ← ver.toNat?
+    let (lo, hi) ← parseSeqs seqs
+    match growable st d, growable st f with
+    | some g, some gf =>
+      let st := setGrown st f gf
+      let chs := sortBySeq (gf.crdt.changesOf s v lo hi)
+      let g' := mergeTracking g chs
+      pure (setGrown st d g', s!"ok n={chs.length} | {dump g'.crdt}")
+    | _, _ => pure (st, "err frozen")
+  | ["co", dst, site, ver, seqs] => do
+    let d ← dbIdx dst; let s ← dbIdx site; let v ← ver.toNat?
+    let (lo, hi) ← parseSeqs seqs
+    match growable st d with
+    | none => pure (st, "err frozen")
+    | some g =>
+      match st.log.find? (·.1 = (s, v)) with
+      | none => pure (setGrown st d g, "err no-such-version")
+      | some (_, all) =>
+        let chs := all.filter (fun c => lo ≤ c.seq ∧ c.seq ≤ hi)
+        let g' := mergeTracking g chs
+        pure (setGrown st d g', s!"ok n={chs.length} | {dump g'.crdt}")
+  | ["local", db, m, s, cs, cc, dir] => do
+    let i ← dbIdx db; let m ← m.toNat?; let s ← parseOptNat s; let cs ← parseOptNat cs
+    let cc ← parseOptNat cc; let dir ← dir.toNat?
+    match growable st i with
+    | none => pure (st, "err frozen")
+    | some g =>
+      let st := setGrown st i { g with members := m, subs := s, consulServices := cs, consulChecks := cc }
+      pure (st.setNode i { st.node i with subsDir := dir }, "ok")
+  | ["mode", db, m] => do
+    let i ← dbIdx db
+    let wal ← if m = "wal" then some true else if m = "delete" then some false else none
+    match growable st i with
+    | none => pure (st, "err frozen")
+    | some g => pure (setGrown st i { g with wal := wal }, "ok")
+  | ["mkempty", db, dir] => do
+    let i ← dbIdx db; let dir ← dir.toNat?
+    match (st.node i).file with
+    | .absent => pure (st.setNode i { file := .empty, subsDir := dir }, "ok")
+    | _ => pure (st, "err exists")
+  | ["backup", src, snap] => do
+    let i ← dbIdx src; let k ← dbIdx snap
+    if (st.snap k).isSome then pure (st, "err exists") else
+    match fileImage (st.node i).file with
+    | none => pure (st, "err no-db")
+    | some im =>
+      match Corro.Backup.backup im.db with
+      | none => pure (st, "err backup")
+      | some b => pure (st.setSnap k { im with db := b }, "ok")
+  | ["restore", snap, dst, keep] => do
+    let k ← dbIdx snap; let d ← dbIdx dst; let keep ← parseKeep keep
+    match st.snap k with
+    | none => pure (st, "err no-snapshot")
+    | some im => pure (applyRestore st k d im keep)
+  | ["trace", snap, dst, keep] => do
+    let k ← dbIdx snap; let d ← dbIdx dst; let keep ← parseKeep keep
+    match st.snap k with
+    | none => pure (st, "err no-snapshot")
+    | some im =>
+      let prog := match fileImage (st.node d).file with
+        | some old => Corro.Locks.restoreProg old.db.wal
+        | none => Corro.Locks.restoreProgEmpty
+      let (st', out) := applyRestore st k d im keep
+      if out = "ok" then pure (st', "ok " ++ Driver.showList (prog.map (·.name))) else pure (st', out)
+  | ["race", snap, dst, keep, readers, style] => do
+    let k ← dbIdx snap; let d ← dbIdx dst; let keep ← parseKeep keep
+    let r ← readers.toNat?
+    if r = 0 ∨ r > 4 then none else
+    if ¬ ["plain", "mmap", "alt", "altmmap"].contains style then none else
+    match st.snap k with
+    | none => pure (st, "err no-snapshot")
+    | some im =>
+      match fileImage (st.node d).file with
+      | none => pure (st, "err no-db")
+      | some _ => pure (applyRestore st k d im keep)
+  | ["timeout", snap, dst, keep, slot] => do
+    let k ← dbIdx snap; let d ← dbIdx dst; let keep ← parseKeep keep
+    match st.snap k with
+    | none => pure (st, "err no-snapshot")
+    | some im =>
+      match fileImage (st.node d).file with
+      | none => pure (st, "err no-db")
+      | some old =>
+        -- the slot must be one the restore wants exclusively in the destination's journal mode
+        let wanted := ((Corro.Locks.restoreProg old.db.wal).filterMap fun
+          | .acquire s .ex => some s.name
+          | _ => none)
+        if ¬ wanted.contains slot then none else
+        -- the snapshot is edited and the subscriptions wiped before the locks are tried
+        let (st', out) := applyRestore st k d im keep
+        if out = "ok" then
+          pure ((st'.setNode d { file := (st.node d).file, subsDir := 0 }), "err lock-timeout")
+        else pure (st', out)
+  | ["inspect", db] => do
+    let i ← dbIdx db
+    pure (st, showNode (st.node i))
+  | ["inspects", snap] => do
+    let k ← dbIdx snap
+    match st.snap k with
+    | none => pure (st, "err no-snapshot")
+    | some im => pure (st, showImage im)
+  | _ => none
+
 end Driver.C19
 def main : IO Unit := Driver.runLoop Driver.C19.init Driver.C19.step
